@@ -261,3 +261,26 @@ def callsite_of(body, t):
             if c.bb == t[3]:
                 return c
     return None
+
+
+def ok_payloads(body):
+    """Terms of the payloads of `_0 = Ok(payload)` assignments (for functions returning Result)."""
+    res = []
+    for bi in sorted(body.reachable_blocks()):
+        for st in body.blocks[bi]["stmts"]:
+            if st["k"] == "assign" and st["pl"]["l"] == 0 and not st["pl"]["p"]:
+                rv = st["rv"]
+                if rv["k"] == "agg" and rv.get("agg") == "adt" and rv["adt"].endswith("result::Result") and rv["variant"] == "Ok":
+                    res.append(body.term_operand(rv["ops"][0]))
+    return res
+
+
+def find_aggs(t, suffix):
+    """All aggregate subterms whose ADT::variant path ends with suffix."""
+    return [s for s in subterms(t) if isinstance(s, tuple) and s and s[0] == "agg" and s[1] == "adt" and s[2].endswith(suffix)]
+
+
+def agg_field(agg, name):
+    if name in agg[4]:
+        return agg[3][agg[4].index(name)]
+    return None
